@@ -30,9 +30,22 @@
 #include "snoopy.h"
 #include "inputdatastorage.h"
 
+#include <limits.h>
 #include <stdio.h>
 #include <stdlib.h>
 #include <string.h>
+
+
+
+/*
+ * Precision for "%.*s" that makes snprintf() stop reading an argument where the room in the result buffer ends.
+ * Without it snprintf() measures the whole argument, and returns -1 (EOVERFLOW) once that is more than INT_MAX bytes.
+ * The result is still "room" (and not "room-1") for an argument that does not fit, which is how the caller notices the cut.
+ */
+static int snoopy_datasource_cmdline_precision (size_t room)
+{
+    return (room > (size_t) INT_MAX) ? INT_MAX : (int) room;
+}
 
 
 
@@ -77,7 +90,8 @@ int snoopy_datasource_cmdline (char * const resultBuf, size_t resultBufSize, __a
         if (NULL == snoopy_inputdatastorage->filename) {
             return snprintf(resultBuf, resultBufSize, "(unknown)");
         } else {
-            return snprintf(resultBuf, resultBufSize, "%s", snoopy_inputdatastorage->filename);
+            // Precision: never look (or count) further than what fits - a path of 2 GiB or more makes "%s" fail with EOVERFLOW
+            return snprintf(resultBuf, resultBufSize, "%.*s", snoopy_datasource_cmdline_precision(resultBufSize), snoopy_inputdatastorage->filename);
         }
     }
 
@@ -99,7 +113,7 @@ int snoopy_datasource_cmdline (char * const resultBuf, size_t resultBufSize, __a
             bytesWrittenToResultBuf += snprintf(
                 resultBuf + bytesWrittenToResultBuf,
                 resultBufSize - bytesWrittenToResultBuf,
-                "%s", snoopy_inputdatastorage->argv[argId]
+                "%.*s", snoopy_datasource_cmdline_precision(resultBufSize - bytesWrittenToResultBuf), snoopy_inputdatastorage->argv[argId]
             );
         }
     }
